@@ -17,9 +17,8 @@ FmtOf(ev) == IF ev.p = "f" THEN F32 ELSE F64
 Val(ev, a) == IF ev.p = "f" THEN V(a[1], a[2], 0, a[3]) ELSE V(a[1], a[2], a[3], a[4])
 AsJson(ev, v) == IF ev.p = "f" THEN ToJson(<<v.s, v.e, v.l>>) ELSE ToJson(<<v.s, v.e, v.h, v.l>>)
 
-(* Tolerances in units in the last place (powers of two), per function and precision; measured maxima of the   *)
-(* pinned tree are recorded in evidence/C16.json (tools/pipes/float.py).  th # 0: binary64 distance measured   *)
-(* in units of 2^26 ulps.                                                                                       *)
+(* Tolerances in units in the last place (powers of two), per function and precision [f: binary32, d: binary64]; *)
+(* the maxima measured on every run are recorded in evidence/C16.json (tools/pipes/float.py).                    *)
 T(a, b) == [f |-> a, d |-> b]
 \* Tol[fn] = 4 x the largest distance in the connected bulk of the error distribution measured on the pinned tree
 \* (run-time and constant-evaluation paths together), rounded up to a power of two; see DESIGN.md (C16).
